@@ -10,7 +10,7 @@ import dns.rdataset
 import dns.rdatatype
 import dns.zone
 
-from harness.oracles import EQUAL, SUBDOMAIN, ref_fullcompare
+from harness.oracles import EQUAL, SUBDOMAIN, fold, ref_fullcompare
 
 PROPERTY = "C20"
 ORIGIN = dns.name.from_text("example.")
@@ -280,14 +280,16 @@ def h20b(l0: int, l1: int) -> bool:
         best = len(qabs)
     ce = qabs[len(qabs) - best:]
     def norm(name):  # noqa: E306
-        return None if name is None else tuple(name.derelativize(ORIGIN).labels)
-    if norm(b.left) != tuple(left) or norm(b.right) != (None if right is None else tuple(right)):
+        return None if name is None else tuple([fold(x) for x in name.derelativize(ORIGIN).labels])
+    def nf(labels):  # noqa: E306
+        return None if labels is None else tuple([fold(x) for x in labels])
+    if norm(b.left) != nf(left) or norm(b.right) != nf(right):
         return False
-    if norm(b.closest_encloser) != tuple(ce):
+    if norm(b.closest_encloser) != nf(ce):
         return False
     if b.is_delegation != (cut is not None):
         return False
-    return b.is_equal == (tuple(left) == tuple(qabs))
+    return b.is_equal == (ref_fullcompare(list(left), list(qabs))[0] == EQUAL)
 
 
 def h20b_pre(l0, l1):
